@@ -222,3 +222,34 @@ Proof.
   apply side_ok_of'; [constructor | constructor | exact Hs].
 Qed.
 Print Assumptions history_from_empty_refines.
+
+(* ================================================================== *)
+(* C10 for writes: an expired key, stored or already removed, makes no difference *)
+(* ================================================================== *)
+From Redka Require Import ProofExpiry.
+
+Lemma R_purge now d s : Inv d -> R now d s -> R now (purge now d) s.
+Proof.
+  intros I [N H]. split; [exact N|]. intros k. rewrite (C10_purge_abs now d I). apply H.
+Qed.
+
+(* every covered operation - writes included - run on a database that still stores expired keys and
+   run on the same database with those keys physically removed answers with the specification's
+   answer and ends in a state with the specification's abstraction: what a client can observe does
+   not depend on whether the cleaner has run *)
+Theorem expired_keys_make_no_difference : forall now o d s,
+  covered o = true -> step_ok now o d -> step_ok now o (purge now d) -> Inv d -> R now d s ->
+  let '(d1, x1) := exec_db now o d in
+  let '(d2, x2) := exec_db now o (purge now d) in
+  let '(s', y) := spec_step now o s in
+  out_equiv o x1 y /\ out_equiv o x2 y /\ R now d1 s' /\ R now d2 s'.
+Proof.
+  intros now o d s Hc K1 K2 I HR.
+  pose proof (all_step_refines_closed now o d s Hc K1 I HR) as S1.
+  pose proof (all_step_refines_closed now o (purge now d) s Hc K2 (C10_purge_inv now d I) (R_purge now d s I HR)) as S2.
+  unfold step_refines in S1, S2. revert S1 S2.
+  destruct (exec_db now o d) as [d1 x1]. destruct (exec_db now o (purge now d)) as [d2 x2].
+  destruct (spec_step now o s) as [s' y]. intros [E1 R1] [E2 R2].
+  split; [exact E1 | split; [exact E2 | split; [exact R1 | exact R2]]].
+Qed.
+Print Assumptions expired_keys_make_no_difference.
